@@ -285,6 +285,23 @@ Guards2(e) ==
         {CG("storm_instances_closed_exactly_once", {"C12", "C10", "C09"}, \A i \in DOMAIN e.closes : e.closes[i] = 1),
          CG("storm_no_panic", {"C12", "C09"}, e.panics = 0),
          CG("storm_one_report", {"C12"}, e.errs = IF e.fail THEN 1 ELSE 0)}
+    ELSE IF e.ev = "rstorm" THEN
+        \* k goroutines issued the FIRST resolutions in a fresh scope at the same instant (asked / distinct / runs are
+        \* <<scoped A, scoped B, transient T, singleton S>>): the scope ends up with one instance per scoped service,
+        \* each scoped constructor ran once (A depends on B, so B is constructed whenever A is), every transient
+        \* request got an instance of its own from an invocation of its own, the singleton constructor did not run
+        \* again, nobody failed, and the Close that follows closes every instance exactly once
+        {CG("rstorm_one_scoped_instance", {"C02", "C09"},
+              /\ (e.asked[1] > 0 => e.distinct[1] = 1) /\ (e.asked[2] > 0 => e.distinct[2] = 1)),
+         CG("rstorm_scoped_constructed_once", {"C02", "C09"},
+              /\ e.runs[1] = (IF e.asked[1] > 0 THEN 1 ELSE 0)
+              /\ e.runs[2] = (IF e.asked[1] + e.asked[2] > 0 THEN 1 ELSE 0)),
+         CG("rstorm_transients_distinct", {"C03", "C09"}, e.distinct[3] = e.asked[3] /\ e.runs[3] = e.asked[3]),
+         CG("rstorm_singleton_untouched", {"C01", "C09"}, (e.asked[4] > 0 => e.distinct[4] = 1) /\ e.runs[4] = 0),
+         CG("rstorm_no_failure", {"C01", "C02", "C03", "C09", "C15"}, e.errs = 0 /\ e.panics = 0 /\ e.closeerr = 0),
+         CG("rstorm_closed_exactly_once", {"C10", "C09"},
+              /\ \A i \in DOMAIN e.closes : e.closes[i] = 1
+              /\ Len(e.closes) = e.runs[1] + e.runs[2] + e.runs[3])}
     ELSE IF e.ev \in {"hang", "fatal"} THEN {CG("no_hang_no_crash", AllProps, FALSE)}
     ELSE {}
 
